@@ -302,7 +302,7 @@ pub fn run_c12(rep: &mut Report, rng: &mut Rng, thorough: bool) {
                 bytes.extend(std::iter::repeat(0u8).take(pad));
             }
         }
-        let legal = pads.iter().take(n.saturating_sub(1)).all(|p| p % 4 == 0);
+        let legal = pads.iter().all(|p| p % 4 == 0);
         let sig = format!("{}:n{}:pads{:?}", if is_xz { "xz" } else { "lzip" }, n, pads.iter().map(|p| p % 4).collect::<Vec<_>>());
         let detail = || json!({"format": if is_xz {"xz"} else {"lzip"}, "parts": names, "paddings": pads, "total_len": bytes.len(), "case": i});
         let cap = data.len() + 64;
